@@ -1,4 +1,5 @@
 import OpacusLean.Lemmas.GradSample
+import OpacusLean.Lemmas.GradSampleConv2
 /-! # C01 — per-sample gradients equal the gradient of each sample taken alone
 
 Part 1: adjoint identities.  For a layer whose forward on one sample is `fwd θ a` (linear in the
@@ -195,5 +196,226 @@ theorem sampler_adjoint_sequence_bias {N L E : Nat} (bias : Fin E → R)
   simp only [h1, Finset.sum_const_zero, zero_add]
   refine Finset.sum_congr rfl fun e _ => ?_
   simp
+
+/-! ## Convolutions -/
+
+theorem samplerPadMode_eq {v17 : Variant} {mode : PadMode} (h : v17 = .repaired ∨ mode = .zeros) :
+    convSamplerPadMode v17 mode = mode := by
+  rcases h with h | h
+  · subst h; rfl
+  · subst h; cases v17 <;> rfl
+
+/-- **Conv2d.**  Row `n` of the coded sampler (F.pad → as_strided view → reshape → einsum → group
+diagonal) is the parameter-VJP of sample `n`, for every geometry the layer accepts, provided
+(a) the sampler pads like the layer (`padding_mode='zeros'`, or the repaired variant) and
+(b) the padded activation is row-major in its last two axes (or the repaired stride list is used). -/
+theorem sampler_adjoint_conv2d (v17 v19 : Variant) (c : Conv2dCfg) (st : Strides4)
+    (x b w : Nat → Nat → Nat → Nat → R) (bias : Nat → R)
+    (hG : c.G * c.Og = c.O) (hC : c.G * c.Cg = c.C) (hs0 : 0 < c.s0) (hs1 : 0 < c.s1) (hfit : c.fits = true)
+    (hmode : v17 = .repaired ∨ c.mode = .zeros)
+    (hlay : v19 = .repaired ∨ (st.h = c.Wp ∧ st.w = 1))
+    (hf : Faithful st c.N c.C c.Hp c.Wp (fun n ch => padded2 c.mode c.H c.W c.pH.1 c.pW.1 (x n ch)))
+    {n : Nat} (hn : n < c.N) :
+    (∑ o : Fin c.O, ∑ h : Fin c.Ho, ∑ v : Fin c.Wo,
+        b n o.val h.val v.val * conv2dFwd c.Og c.Cg c.kH c.kW c.s0 c.s1 c.d0 c.d1 w bias
+          (fun ch => padded2 c.mode c.H c.W c.pH.1 c.pW.1 (x n ch)) o.val h.val v.val)
+      = (∑ o : Fin c.O, ∑ ci : Fin c.Cg, ∑ kh : Fin c.kH, ∑ kw : Fin c.kW,
+          conv2dWeightGS v17 v19 c st x b n o.val ci.val (kh.val * c.kW + kw.val) * w o.val ci.val kh.val kw.val)
+        + ∑ o : Fin c.O, conv2dBiasGS c b n o.val * bias o.val := by
+  set xp : Nat → Nat → Nat → Nat → R := fun n ch => padded2 c.mode c.H c.W c.pH.1 c.pW.1 (x n ch) with hxp
+  -- left side: merge (h,v) into q, rewrite the forward on patches, apply the patch-level adjoint
+  have hL : ∀ o : Fin c.O, (∑ h : Fin c.Ho, ∑ v : Fin c.Wo,
+        b n o.val h.val v.val * conv2dFwd c.Og c.Cg c.kH c.kW c.s0 c.s1 c.d0 c.d1 w bias (xp n) o.val h.val v.val)
+      = ∑ q : Fin c.Q, flattenB2 c.Wo b n o.val q.val *
+          convFwdCore c.Og c.Cg c.K (fun o ci k => w o ci (k / c.kW) (k % c.kW)) bias
+            (fun p q => window2d c.kH c.kW c.Wo c.d0 c.d1 c.s0 c.s1 xp n p q) o.val q.val := by
+    intro o
+    rw [← sum_flatten c.Ho c.Wo (fun h v => b n o.val h v *
+        conv2dFwd c.Og c.Cg c.kH c.kW c.s0 c.s1 c.d0 c.d1 w bias (xp n) o.val h v)]
+    refine Finset.sum_congr rfl fun q _ => ?_
+    rw [conv2dFwd_eq_core]; rfl
+  have hxp' : (fun ch => padded2 c.mode c.H c.W c.pH.1 c.pW.1 (x n ch)) = xp n := rfl
+  rw [hxp']
+  simp only [hL]
+  rw [convCore_adjoint c.O c.Og c.Cg c.K c.Q _ bias _ (fun o q => flattenB2 c.Wo b n o q)]
+  congr 1
+  swap
+  · simp only [conv2dBiasGS, convBiasGS, sumFin_eq_sum]
+  refine Finset.sum_congr rfl fun o _ => Finset.sum_congr rfl fun ci _ => ?_
+  -- right side: merge (kh,kw) into k
+  rw [← sum_flatten c.kH c.kW (fun kh kw =>
+      conv2dWeightGS v17 v19 c st x b n o.val ci.val (kh * c.kW + kw) * w o.val ci.val kh kw)]
+  refine Finset.sum_congr rfl fun k _ => ?_
+  have hk : k.val / c.kW * c.kW + k.val % c.kW = k.val := by rw [Nat.mul_comm]; exact Nat.div_add_mod _ _
+  rw [hk]
+  congr 1
+  -- the coded weight sampler at (o, ci, k)
+  have ho : o.val < c.G * c.Og := by rw [hG]; exact o.isLt
+  simp only [conv2dWeightGS, samplerPadMode_eq hmode]
+  rw [conv_groups_diag c.G c.Og c.Cg c.K c.Q _ _ n ho ci.isLt k.isLt]
+  simp only [convOuter, sumFin_eq_sum]
+  refine Finset.sum_congr rfl fun q _ => ?_
+  congr 1
+  have hg : o.val / c.Og < c.G := by
+    have hOg : 0 < c.Og := by
+      rcases Nat.eq_zero_or_pos c.Og with h | h
+      · rw [h] at ho; simp at ho
+      · exact h
+    rw [Nat.div_lt_iff_lt_mul hOg]; exact ho
+  have hp : (o.val / c.Og * c.Cg + ci.val) * c.K + k.val < c.C * (c.kH * c.kW) := by
+    have h1 : o.val / c.Og * c.Cg + ci.val < c.C := by
+      rw [← hC]
+      calc o.val / c.Og * c.Cg + ci.val < o.val / c.Og * c.Cg + c.Cg := by have := ci.isLt; omega
+        _ = (o.val / c.Og + 1) * c.Cg := by ring
+        _ ≤ c.G * c.Cg := Nat.mul_le_mul_right _ hg
+    have hK : c.K = c.kH * c.kW := rfl
+    calc (o.val / c.Og * c.Cg + ci.val) * c.K + k.val < (o.val / c.Og * c.Cg + ci.val) * c.K + c.K := by
+          have := k.isLt; omega
+      _ = (o.val / c.Og * c.Cg + ci.val + 1) * c.K := by ring
+      _ ≤ c.C * c.K := Nat.mul_le_mul_right _ h1
+  exact (unfold2d_eq_window v19 c st xp hlay hf hs0 hs1 hfit hn hp q.isLt).symm
+
+/-- **Conv1d** (`unsqueeze`, `F.pad`, torch's `F.unfold`, einsum, group diagonal) -/
+theorem sampler_adjoint_conv1d (v17 : Variant) (c : Conv1dCfg)
+    (x b w : Nat → Nat → Nat → R) (bias : Nat → R)
+    (hG : c.G * c.Og = c.O) (hmode : v17 = .repaired ∨ c.mode = .zeros) (n : Nat) :
+    (∑ o : Fin c.O, ∑ v : Fin c.Lo,
+        b n o.val v.val * conv1dFwd c.Og c.Cg c.k c.s c.d w bias (fun ch => padded1 c.mode c.L c.p.1 (x n ch)) o.val v.val)
+      = (∑ o : Fin c.O, ∑ ci : Fin c.Cg, ∑ kw : Fin c.k,
+          conv1dWeightGS v17 c x b n o.val ci.val kw.val * w o.val ci.val kw.val)
+        + ∑ o : Fin c.O, conv1dBiasGS c b n o.val * bias o.val := by
+  set xp : Nat → Nat → Nat → R := fun n ch => padded1 c.mode c.L c.p.1 (x n ch) with hxp
+  have hxp' : (fun ch => padded1 c.mode c.L c.p.1 (x n ch)) = xp n := rfl
+  rw [hxp']
+  simp only [conv1dFwd_eq_core]
+  rw [convCore_adjoint c.O c.Og c.Cg c.k c.Lo w bias _ (fun o q => b n o q)]
+  congr 1
+  swap
+  · simp only [conv1dBiasGS, convBiasGS, sumFin_eq_sum]
+  refine Finset.sum_congr rfl fun o _ => Finset.sum_congr rfl fun ci _ => Finset.sum_congr rfl fun k _ => ?_
+  congr 1
+  have ho : o.val < c.G * c.Og := by rw [hG]; exact o.isLt
+  simp only [conv1dWeightGS, samplerPadMode_eq hmode]
+  rw [conv_groups_diag c.G c.Og c.Cg c.k c.Lo _ _ n ho ci.isLt k.isLt]
+  simp only [convOuter, sumFin_eq_sum]
+  rfl
+
+/-- **Conv3d** (`unfold3d`, einsum, group diagonal) -/
+theorem sampler_adjoint_conv3d (v17 : Variant) (c : Conv3dCfg)
+    (x b w : Nat → Nat → Nat → Nat → Nat → R) (bias : Nat → R)
+    (hG : c.G * c.Og = c.O) (hmode : v17 = .repaired ∨ c.mode = .zeros) (n : Nat) :
+    (∑ o : Fin c.O, ∑ z : Fin c.Do, ∑ h : Fin c.Ho, ∑ v : Fin c.Wo,
+        b n o.val z.val h.val v.val * conv3dFwd c.Og c.Cg c.kD c.kH c.kW c.s0 c.s1 c.s2 c.d0 c.d1 c.d2 w bias
+          (fun ch => padded3 c.mode c.D c.H c.W c.pD.1 c.pH.1 c.pW.1 (x n ch)) o.val z.val h.val v.val)
+      = (∑ o : Fin c.O, ∑ ci : Fin c.Cg, ∑ kd : Fin c.kD, ∑ kh : Fin c.kH, ∑ kw : Fin c.kW,
+          conv3dWeightGS v17 c x b n o.val ci.val ((kd.val * c.kH + kh.val) * c.kW + kw.val) * w o.val ci.val kd.val kh.val kw.val)
+        + ∑ o : Fin c.O, conv3dBiasGS c b n o.val * bias o.val := by
+  set xp : Nat → Nat → Nat → Nat → Nat → R :=
+    fun n ch => padded3 c.mode c.D c.H c.W c.pD.1 c.pH.1 c.pW.1 (x n ch) with hxp
+  have hxp' : (fun ch => padded3 c.mode c.D c.H c.W c.pD.1 c.pH.1 c.pW.1 (x n ch)) = xp n := rfl
+  rw [hxp']
+  have hL : ∀ o : Fin c.O, (∑ z : Fin c.Do, ∑ h : Fin c.Ho, ∑ v : Fin c.Wo,
+        b n o.val z.val h.val v.val * conv3dFwd c.Og c.Cg c.kD c.kH c.kW c.s0 c.s1 c.s2 c.d0 c.d1 c.d2 w bias (xp n) o.val z.val h.val v.val)
+      = ∑ q : Fin c.Q, flattenB3 c.Ho c.Wo b n o.val q.val *
+          convFwdCore c.Og c.Cg c.K (fun o ci k => w o ci (k / (c.kH * c.kW)) (k / c.kW % c.kH) (k % c.kW)) bias
+            (fun p q => window3d c.kD c.kH c.kW c.Ho c.Wo c.s0 c.s1 c.s2 c.d0 c.d1 c.d2 xp n p q) o.val q.val := by
+    intro o
+    rw [← sum_flatten3 c.Do c.Ho c.Wo (fun z h v => b n o.val z h v *
+        conv3dFwd c.Og c.Cg c.kD c.kH c.kW c.s0 c.s1 c.s2 c.d0 c.d1 c.d2 w bias (xp n) o.val z h v)]
+    refine Finset.sum_congr rfl fun q _ => ?_
+    rw [conv3dFwd_eq_core]; rfl
+  simp only [hL]
+  rw [convCore_adjoint c.O c.Og c.Cg c.K c.Q _ bias _ (fun o q => flattenB3 c.Ho c.Wo b n o q)]
+  congr 1
+  swap
+  · simp only [conv3dBiasGS, convBiasGS, sumFin_eq_sum]
+  refine Finset.sum_congr rfl fun o _ => Finset.sum_congr rfl fun ci _ => ?_
+  rw [← sum_flatten3 c.kD c.kH c.kW (fun kd kh kw =>
+      conv3dWeightGS v17 c x b n o.val ci.val ((kd * c.kH + kh) * c.kW + kw) * w o.val ci.val kd kh kw)]
+  refine Finset.sum_congr rfl fun k _ => ?_
+  rw [recompose3]
+  congr 1
+  have ho : o.val < c.G * c.Og := by rw [hG]; exact o.isLt
+  simp only [conv3dWeightGS, conv3dUnfolded, samplerPadMode_eq hmode]
+  rw [conv_groups_diag c.G c.Og c.Cg c.K c.Q _ _ n ho ci.isLt k.isLt]
+  simp only [convOuter, sumFin_eq_sum, unfold3d_eq_window]
+  rfl
+
+/-! ## `unfold2d`: the `as_strided` view -/
+
+/-- **as_strided_unfold2d_eq** (as coded): if the padded tensor is row-major in its last two axes,
+the view built from `[W_pad·d₀, d₁, W_pad·s₀, s₁]` is the window `x_pad[n][c][h·s₀+kh·d₀][w·s₁+kw·d₁]`,
+and that cell lies inside the padded tensor (nothing outside the buffer is read). -/
+theorem as_strided_unfold2d_eq {S : Type} [Zero S] (c : Conv2dCfg) (st : Strides4) (xp : Nat → Nat → Nat → Nat → S)
+    (hrow : st.h = c.Wp ∧ st.w = 1) (hf : Faithful st c.N c.C c.Hp c.Wp xp)
+    (hs0 : 0 < c.s0) (hs1 : 0 < c.s1) (hfit : c.fits = true)
+    {n ch kh kw h v : Nat} (hn : n < c.N) (hc : ch < c.C) (hkh : kh < c.kH) (hkw : kw < c.kW)
+    (hh : h < c.Ho) (hv : v < c.Wo) :
+    unfold2dView .asCoded st c.Wp c.d0 c.d1 c.s0 c.s1 (memOf st c.N c.C c.Hp c.Wp xp) n ch kh kw h v
+        = xp n ch (h * c.s0 + kh * c.d0) (v * c.s1 + kw * c.d1)
+      ∧ h * c.s0 + kh * c.d0 < c.Hp ∧ v * c.s1 + kw * c.d1 < c.Wp := by
+  simp only [Conv2dCfg.fits, Bool.and_eq_true, decide_eq_true_eq] at hfit
+  have hi := window_in_range hs0 hfit.1 hh hkh
+  have hj := window_in_range hs1 hfit.2 hv hkw
+  refine ⟨?_, hi, hj⟩
+  rw [unfold2dView_asCoded st _ _ _ _ _ _ hrow, memOf_addr st _ _ _ _ xp hf hn hc hi hj]
+
+/-- the repaired stride list `[s_H·d₀, s_W·d₁, s_H·s₀, s_W·s₁]` is correct for EVERY layout -/
+theorem as_strided_unfold2d_eq_repaired {S : Type} [Zero S] (c : Conv2dCfg) (st : Strides4) (xp : Nat → Nat → Nat → Nat → S)
+    (hf : Faithful st c.N c.C c.Hp c.Wp xp)
+    (hs0 : 0 < c.s0) (hs1 : 0 < c.s1) (hfit : c.fits = true)
+    {n ch kh kw h v : Nat} (hn : n < c.N) (hc : ch < c.C) (hkh : kh < c.kH) (hkw : kw < c.kW)
+    (hh : h < c.Ho) (hv : v < c.Wo) :
+    unfold2dView .repaired st c.Wp c.d0 c.d1 c.s0 c.s1 (memOf st c.N c.C c.Hp c.Wp xp) n ch kh kw h v
+        = xp n ch (h * c.s0 + kh * c.d0) (v * c.s1 + kw * c.d1)
+      ∧ h * c.s0 + kh * c.d0 < c.Hp ∧ v * c.s1 + kw * c.d1 < c.Wp := by
+  simp only [Conv2dCfg.fits, Bool.and_eq_true, decide_eq_true_eq] at hfit
+  have hi := window_in_range hs0 hfit.1 hh hkh
+  have hj := window_in_range hs1 hfit.2 hv hkw
+  refine ⟨?_, hi, hj⟩
+  rw [unfold2dView_repaired, memOf_addr st _ _ _ _ xp hf hn hc hi hj]
+
+/-- contiguous and channels_last storage satisfy the `Faithful` hypothesis for every tensor -/
+theorem faithful_layouts {S : Type} (N C H W : Nat) (xp : Nat → Nat → Nat → Nat → S) :
+    Faithful (Strides4.rowMajor C H W) N C H W xp ∧ Faithful (Strides4.channelsLast C H W) N C H W xp :=
+  ⟨faithful_rowMajor N C H W xp, faithful_channelsLast N C H W xp⟩
+
+/-- the D19 geometry: `nn.Conv2d(2,1,1)` on a `1×2×2×2` activation -/
+def cfgD19 : Conv2dCfg := ⟨1, 2, 1, 1, 2, 2, 1, 1, 1, 1, 1, 1, .explicit 0, .explicit 0, .zeros⟩
+/-- `arange(1..8).reshape(1,2,2,2)` and the cotangent `[1,10,100,1000]` -/
+def xD19 : Nat → Nat → Nat → Nat → Int := fun _ c i j => ((c * 2 + i) * 2 + j + 1 : Nat)
+def bD19 : Nat → Nat → Nat → Nat → Int := fun _ _ i j => (10 : Int) ^ (i * 2 + j)
+
+/-- D19 witness (replayed on the real code): the same activation stored `channels_last`.  As coded
+the per-sample weight gradient is `[6251, 3625]`; the gradient (and the repaired variant, and the
+coded variant on contiguous storage) is `[4321, 8765]`. -/
+theorem unfold2d_channels_last_counterexample :
+    (conv2dWeightGS .asCoded .asCoded cfgD19 (Strides4.channelsLast 2 2 2) xD19 bD19 0 0 0 0 = 6251 ∧
+     conv2dWeightGS .asCoded .asCoded cfgD19 (Strides4.channelsLast 2 2 2) xD19 bD19 0 0 1 0 = 3625) ∧
+    (conv2dWeightGS .asCoded .repaired cfgD19 (Strides4.channelsLast 2 2 2) xD19 bD19 0 0 0 0 = 4321 ∧
+     conv2dWeightGS .asCoded .repaired cfgD19 (Strides4.channelsLast 2 2 2) xD19 bD19 0 0 1 0 = 8765) ∧
+    (conv2dWeightGS .asCoded .asCoded cfgD19 (Strides4.rowMajor 2 2 2) xD19 bD19 0 0 0 0 = 4321 ∧
+     conv2dWeightGS .asCoded .asCoded cfgD19 (Strides4.rowMajor 2 2 2) xD19 bD19 0 0 1 0 = 8765) := by
+  decide +kernel
+
+/-- the D17 geometry: `nn.Conv2d(1,1,2,padding=1,padding_mode='reflect')` on `[[1,2],[3,4]]` -/
+def cfgD17 : Conv2dCfg := ⟨1, 1, 1, 1, 2, 2, 2, 2, 1, 1, 1, 1, .explicit 1, .explicit 1, .reflect⟩
+def xD17 : Nat → Nat → Nat → Nat → Int := fun _ _ i j => (i * 2 + j + 1 : Nat)
+
+/-- D17 witness (replayed on the real code), cotangent all ones: as coded the sampler unfolds the
+zero-padded activation: `[10,10,10,10]`; with the layer's reflect padding the gradient is `[27,24,21,18]`. -/
+theorem conv_padding_mode_counterexample :
+    (∀ kh kw : Fin 2, conv2dWeightGS .asCoded .asCoded cfgD17 (Strides4.rowMajor 1 4 4) xD17 (fun _ _ _ _ => 1) 0 0 0 (kh.val * 2 + kw.val) = 10) ∧
+    (conv2dWeightGS .repaired .asCoded cfgD17 (Strides4.rowMajor 1 4 4) xD17 (fun _ _ _ _ => 1) 0 0 0 0 = 27 ∧
+     conv2dWeightGS .repaired .asCoded cfgD17 (Strides4.rowMajor 1 4 4) xD17 (fun _ _ _ _ => 1) 0 0 0 1 = 24 ∧
+     conv2dWeightGS .repaired .asCoded cfgD17 (Strides4.rowMajor 1 4 4) xD17 (fun _ _ _ _ => 1) 0 0 0 2 = 21 ∧
+     conv2dWeightGS .repaired .asCoded cfgD17 (Strides4.rowMajor 1 4 4) xD17 (fun _ _ _ _ => 1) 0 0 0 3 = 18) := by
+  decide +kernel
+
+/-- non-vacuity of `sampler_adjoint_conv2d`: a grouped, strided, dilated, 'same'-free geometry that
+satisfies every hypothesis on contiguous storage -/
+example : let c : Conv2dCfg := ⟨2, 4, 6, 2, 5, 6, 2, 3, 2, 1, 1, 2, .explicit 1, .same, .zeros⟩
+    c.G * c.Og = c.O ∧ c.G * c.Cg = c.C ∧ 0 < c.s0 ∧ 0 < c.s1 ∧ c.fits = true ∧
+    (Strides4.rowMajor c.C c.Hp c.Wp).h = c.Wp ∧ (Strides4.rowMajor c.C c.Hp c.Wp).w = 1 := by decide
 
 end Opacus.C01
